@@ -26,7 +26,8 @@ extern "C" __attribute__((noinline)) double stub_cp(const Point64& a, const Poin
   VA(i >= 0 && i < NV);
   VA(&b == g_base + (i + 1 == NV ? 0 : i + 1));
   VA(&c == g_q);
-  return (double)g_cp[i];
+  // only the sign is used by PointInPolygon (d == 0, d < 0): returning +-1.0/0.0 avoids an int64->double conversion circuit per call
+  return g_cp[i] > 0 ? 1.0 : (g_cp[i] < 0 ? -1.0 : 0.0);
 }
 
 // exact reference: 0 = on boundary, 1 = inside, 2 = outside (even-odd rule), integer arithmetic only
